@@ -59,6 +59,19 @@ PROPS = {
         "assumptions": [A_KANI, "'all body types' is covered by instances {u8,u32,u64,(),[u8;4],Tok(with Drop),Other,NoClone}"],
         "not_covered": ["the derive macro's byte_len (sum over fields of the active variant): des-macros-core is not covered", "Body::length is linked to the Verus unit by an assumed contract (proved on the Kani side)"],
     },
+    "C19": {
+        "bundles": ["topology"],
+        "fns": {"topology": ["Topology::bidirectional", "Topology::connected", "Topology::connected::visit"]},
+        "assumptions": ["representation invariant wf() of a Topology value (one edge bundle per node, every edge ends at a node index of the view) is a precondition: that from_modules / spanned / filter_nodes / filter_edges establish and keep it is only covered by the bounded replay driver",
+                        "ModuleRef / GateRef are opaque (never inspected by the functions under contract)",
+                        "assumed contracts on std: <[T]>::contains (some element equals the argument), Iterator::any on a slice iterator (rewrite R8, helper any_by)",
+                        "logged desugarings R14/R15 (`for (i, x) in v.iter().enumerate()` / `for x in &v` over a Vec -> while loop over an explicit cursor), R13 (range for), R16 (the nested fn `visit` is extracted as a function of its own)",
+                        "edges are read at node level (a -> b); the gate labels of an edge are not part of the contracts"],
+        "not_covered": ["BOUNDED only (replay/topo_driver on the real crate, never counted as proved): Topology::from_modules / Globals::topology and Topology::spanned produce exactly one node per module considered and one edge per gate-chain endpoint, from the owner of the endpoint to the owner of the far end, labelled with those two gates; spanned contains exactly the modules reachable from the root",
+                        "BOUNDED only (replay/topo_driver): dijkstra (entries for exactly the reachable nodes other than the source; each entry is an edge leaving the source towards a node one hop closer to the target), filter_nodes (exactly the selected nodes in order, exactly the edges among them), filter_edges, edges_for",
+                        "(not proved) dijkstra, filter_nodes, filter_edges, from_modules, spanned: FxHashMap, closures called through FnMut, retain/retain_mut, custom iterator, Arc<Gate> walks - outside the Verus subset without rewriting them into a model",
+                        "with_node_attachments / with_edge_attachments / cost and connectivity attachments / as_dot / as_svg"],
+    },
     "C14": {
         "bundles": ["processor"],
         "fns": {"processor": ["Processor::incoming_upstream", "Processor::incoming_downstream", "ProcessingState::bump_upstream", "ProcessingState::bump_downstream", "ProcessingStack::append"]},
